@@ -52,15 +52,33 @@ class Scenario:
         self.marks = {}        # thread position -> list of dict(type, stack, title, labels=[(value,label)...]) in definition order
 
     # ---- ordering rules of system.c
+    def _loom_ranks(self):
+        """loom -> sorted ranks of its processes (empty when the loom has no rank information)"""
+        res = {}
+        for t in self.threads:
+            res.setdefault(t["loom"], set())
+            if t.get("rank") is not None:
+                res[t["loom"]].add(t["rank"])
+        return res
+
     def loom_order(self):
-        # a loom exists in the trace only through its threads
-        used = set(t["loom"] for t in self.threads)
-        return sorted(l for l in self.looms if l in used)
+        # a loom exists in the trace only through its threads; looms are ordered by their lowest rank when every
+        # loom has rank information, by name otherwise (system.c set_sort_criteria / sort_lpt)
+        lr = self._loom_ranks()
+        used = [l for l in self.looms if l in lr]
+        if used and all(lr[l] for l in used):
+            return sorted(used, key=lambda l: (min(lr[l]), l))
+        return sorted(used)
 
     def thread_gindex(self):
-        """thread position -> gindex"""
+        """thread position -> gindex: looms in loom order, processes by rank (when the loom has ranks) or pid, threads by tid"""
+        lo = self.loom_order()
+        lr = self._loom_ranks()
+
+        def pkey(t):
+            return t["rank"] if (lr.get(t["loom"]) and t.get("rank") is not None) else t["pid"]
         order = sorted(range(len(self.threads)),
-                       key=lambda i: (self.loom_order().index(self.threads[i]["loom"]), self.threads[i]["pid"], self.threads[i]["tid"]))
+                       key=lambda i: (lo.index(self.threads[i]["loom"]), pkey(self.threads[i]), self.threads[i]["tid"]))
         return {pos: g for g, pos in enumerate(order)}
 
     def cpu_table(self):
